@@ -170,10 +170,11 @@ Definition replay_span_is_yield_hull_for (run : runner_rec) : Prop :=
     forall j sp, In (j, sp) (expected_spans (final_tree log k) 0) ->
       exists c, nth_error log j = Some c /\ c_span c = sp.
 
-(* the duplicated reduce code of lr_upto computes what the one of lr computes *)
+(* the duplicated reduce code of lr_upto computes what the one of lr computes (both policies) *)
 Definition replay_mirror_same_step_stmt : Prop :=
-  forall (SP : Type) (rd : list SP -> nat -> outcome (span * list SP)) g A prm s p,
-    reduce_upto SP rd g A prm s p = reduce_lr SP rd g A prm s p.
+  (forall g A prm s p, reduce_upto span sp_reduce_cur g A prm s p = reduce_lr span sp_reduce_cur g A prm s p) /\
+  (forall g A prm s p, reduce_upto (span * bool)%type sp_reduce_fix g A prm s p =
+                       reduce_lr (span * bool)%type sp_reduce_fix g A prm s p).
 
 (* ---- today's code ---- *)
 Definition action_log_is_postorder_stmt := action_log_is_postorder_for run_actions.
@@ -196,11 +197,3 @@ Definition fixed_replay_calls_wellformed_stmt := replay_calls_wellformed_for run
 Definition span_is_yield_hull_stmt := span_is_yield_hull_for run_actions_fixed.
 Definition span_is_yield_hull_weak_stmt := span_is_yield_hull_weak_for run_actions_fixed.
 Definition replay_span_is_yield_hull_stmt := replay_span_is_yield_hull_for run_actions_fixed_rec.
-
-(* the two mirrors differ in nothing but the spans: same verdict, same calls up to c_span *)
-Definition strip_span (c : call) : call := mkCall (c_pidx c) (c_ridx c) (c_args c) (0, 0) (c_param c).
-Definition fixed_changes_only_spans_stmt : Prop :=
-  forall g A prm lexemes fuel rec oracle r r',
-    run_actions_rec g A prm lexemes fuel rec oracle = Done r ->
-    run_actions_fixed_rec g A prm lexemes fuel rec oracle = Done r' ->
-    r_val r = r_val r' /\ r_errs r = r_errs r' /\ map strip_span (r_log r) = map strip_span (r_log r').
